@@ -36,6 +36,18 @@ V4Cases == { [text |-> "::1.2.3.4", words |-> <<0, 0, 0, 0, 0, 0, 258, 772>>],
              [text |-> "1:2:3:4:5:6:10.0.0.1", words |-> <<1, 2, 3, 4, 5, 6, 2560, 1>>],
              [text |-> "64:ff9b::192.0.2.33", words |-> <<100, 65435, 0, 0, 0, 0, 49152, 545>>],
              [text |-> "1::10.11.12.13", words |-> <<1, 0, 0, 0, 0, 0, 2571, 3085>>] }
-ASSUME PrintT(<<"CASES", ToJson(Cases \cup V4Cases)>>)
-ASSUME PrintT(<<"NCASES", Cardinality(Cases \cup V4Cases)>>)
+(* six hex groups (every zero pattern, every "::" placement) followed by a dotted quad *)
+P6 == [1..6 -> BOOLEAN]
+W6(p, i) == IF p[i] THEN Alphabet[((i - 1) % 5) + 1] ELSE Zero
+RECURSIVE Join6(_, _, _, _)
+Join6(p, a, b, acc) == IF a > b THEN acc ELSE Join6(p, a + 1, b, IF acc = "" THEN W6(p, a).r[1] ELSE acc \o ":" \o W6(p, a).r[1])
+Words6(p) == [i \in 1..8 |-> IF i <= 6 THEN W6(p, i).v ELSE IF i = 7 THEN 49320 ELSE 513]      \* 192.168.2.1
+Runs6(p) == {<<s, n>> \in (1..6) \X (1..6) : s + n - 1 <= 6 /\ \A i \in s..(s + n - 1) : ~p[i]}
+Tail6(p, run) == LET after == Join6(p, run[1] + run[2], 6, "") IN
+                 Join6(p, 1, run[1] - 1, "") \o "::" \o (IF after = "" THEN "" ELSE after \o ":") \o "192.168.2.1"
+V4Gen == UNION { {[text |-> Join6(p, 1, 6, "") \o ":192.168.2.1", words |-> Words6(p)]}
+                 \cup {[text |-> Tail6(p, run), words |-> Words6(p)] : run \in Runs6(p)} : p \in P6 }
+AllCases == Cases \cup V4Cases \cup V4Gen
+ASSUME PrintT(<<"CASES", ToJson(AllCases)>>)
+ASSUME PrintT(<<"NCASES", Cardinality(AllCases)>>)
 =============================================================================
